@@ -95,7 +95,7 @@ pub fn pad(v: f32) -> f32 {
 /// extracting the css tag of inside of a shape fragment
 pub mod parser {
 
-    use pom::parser::{is_a, list, none_of, one_of, sym, tag, Parser};
+    use pom::parser::{end, is_a, list, none_of, one_of, sym, tag, Parser};
     use std::iter::FromIterator;
 
     /// Parses a list with the defined separator, but will fail early when one of the
@@ -191,7 +191,7 @@ pub mod parser {
     }
 
     fn parse_css_tag_chars(input: &[char]) -> Result<Vec<String>, pom::Error> {
-        tag_classes().parse(input)
+        (tag_classes() - end()).parse(input)
     }
 
     /// string inside a css content, taken as is as long as it is not `{` or `}`
